@@ -250,6 +250,29 @@ class Snap:
                 uni.add(str(n))
         self.enc = ";".join(toks)
         self.universe = sorted(uni)
+        self._henc = None
+
+    @property
+    def henc(self):
+        """the pointer heap as the real objects hold it: the six link fields and `contents` of every element"""
+        if self._henc is None:
+            from bs4 import BeautifulSoup
+            from bs4.element import PreformattedString
+            ref = lambda o: "~" if o is None else str(self.idx.get(id(o), 99999))
+            out = []
+            for i, n in enumerate(self.nodes):
+                if self.is_tag[i]:
+                    kind = "g" if isinstance(n, BeautifulSoup) else "t"
+                    val, pf = tok(n.name), ("~" if n.prefix is None else tok(n.prefix))
+                    ats = self.enc.split(";")[i].split(":")[4]
+                    kids = "+".join(str(self.idx[id(c)]) for c in n.contents) or "-"
+                else:
+                    kind = "p" if isinstance(n, PreformattedString) else "s"
+                    val, pf, ats, kids = tok(str(n)), "~", "-", "-"
+                out.append(f"{i}:{kind}:{ref(n.parent)}:{ref(n.previous_sibling)}:{ref(n.next_sibling)}:"
+                           f"{ref(n.previous_element)}:{ref(n.next_element)}:{kids}:{val}:{pf}:{ats}")
+            self._henc = ";".join(out)
+        return self._henc
 
     # axes from the independent traversal (indices)
     def axis(self, fam, s):
@@ -660,7 +683,17 @@ def model_line(snap, start, fam, form, limit, q, variant=None, tabs=None):
     return f"c10 find {variant} {snap.enc} {start} {fam} {f} {lim} {q.enc()} {re_t} {ft} {fs}"
 
 
-def parse_model(fam, reply, singular):
+def heap_line(snap, start, fam, form, limit, q, variant=None, tabs=None):
+    """the same question to the heap-level model (findAllH / findOneH on the real pointer state)"""
+    variant = variant or MODEL_VARIANT
+    re_t, ft, fs = tabs or tables(snap, q)
+    lim = "none" if limit is None else str(limit)
+    fam2 = fam
+    f = "one" if form == "one" else "all"
+    return f"c10 findh {variant} {snap.henc} {start} {fam2} {f} {lim} {q.enc()} {re_t} {ft} {fs}"
+
+
+def parse_model(fam, reply, singular, keep_root=False):
     """model reply -> (res, log) with the root dropped on the previous axis"""
     if " | " not in reply:
         return reply, None
@@ -674,7 +707,7 @@ def parse_model(fam, reply, singular):
         for c in b.split(";"):
             k, i, x = c.split(":")
             log.append(("t", int(i), int(x)) if k == "t" else ("s", int(i), "" if x == "-" else "".join(chr(int(y)) for y in x.split(","))))
-    return drop_root(fam, res, log)
+    return (res, log) if keep_root else drop_root(fam, res, log)
 
 
 # --------------------------------------------------------------------------------------------------
@@ -799,7 +832,8 @@ def gen_case(r, snap: Snap):
         if n < 2:
             fam, start = "desc", 0
         else:
-            start = r.randrange(1, n)        # never the BeautifulSoup root (it may stand outside the chain)
+            # the BeautifulSoup root may stand outside the chain: as a start element it is compared at heap level only
+            start = 0 if r.random() < 0.04 else r.randrange(1, n)
     else:
         start = r.randrange(n)
     ax = snap.axis(fam, start)
@@ -818,6 +852,19 @@ def gen_case(r, snap: Snap):
 def check_case(ctx: Ctx, snap, case, tree_kind, lines, pend):
     start, fam, form, limit, q = case
     real, rlog = run_real(snap, start, fam, form, limit, q)
+    raw, rawlog = real, list(rlog)
+    heap_only = start == 0 and fam in ("next", "prev")
+    if heap_only:
+        # the BeautifulSoup root as start of the next/previous axes: whether it stands inside the element chain is left free
+        # by C01, so there is no tree-level expectation; the heap-level model runs on the real pointers and must agree
+        ctx.case(None)
+        ctx.count("heap-only:root-start")
+        tabs = tables(snap, q)
+        lines.append(heap_line(snap, start, fam, form, limit, q, tabs=tabs))
+        pend.append(({"op": "findh", "tree": snap.enc, "tree_kind": tree_kind, "markup": str(snap.soup), "start": start,
+                      "family": fam, "form": form, "limit": limit, "query": q.describe(),
+                      "q": [q.name, q.attrs, q.string, q.kwargs]}, raw, rawlog, fam, form, False, classify(q, limit, form), True))
+        return
     want, wlog = expected(snap, start, fam, form, limit, q)
     if not isinstance(real, str):
         real, rlog = drop_root(fam, real, rlog)
@@ -853,21 +900,28 @@ def check_case(ctx: Ctx, snap, case, tree_kind, lines, pend):
         bad = True
         ctx.violation("function given as the name criterion is not called exactly once per candidate tag with the Tag",
                       case=desc, expected=show_log(wlog), observed=show_log(rlog), stream="oracle-calllog", kf=kf)
-    lines.append(model_line(snap, start, fam, form, limit, q))
-    pend.append((desc, real, rlog, fam, form, bad, kf))
+    tabs = tables(snap, q)
+    lines.append(model_line(snap, start, fam, form, limit, q, tabs=tabs))
+    pend.append((desc, real, rlog, fam, form, bad, kf, False))
+    # the heap-level model on the real pointer state: compared without any canonicalisation of the root
+    lines.append(heap_line(snap, start, fam, form, limit, q, tabs=tabs))
+    pend.append((desc | {"op": "findh"}, raw, rawlog, fam, form, bad, kf, True))
 
 
 def flush_model(ctx: Ctx, drv: Driver, lines, pend):
     if not lines:
         return
     replies = drv.ask(lines)
-    for line, rep, (desc, real, rlog, fam, form, bad, kf) in zip(lines, replies, pend):
-        mres, mlog = parse_model(fam, rep, form == "one")
+    for line, rep, (desc, real, rlog, fam, form, bad, kf, heap) in zip(lines, replies, pend):
+        mres, mlog = parse_model(fam, rep, form == "one", keep_root=heap)
+        if heap:
+            ctx.count("model:heap-requests")
         if isinstance(real, str) or mres != real or mlog != rlog:
             ctx.corr_disagreements += 1
             if not bad:
                 # model = documented meaning + mirrored quirks: a disagreement on results/log is a failing input
-                ctx.violation("real search differs from the Lean model (findAllFam)", case=desc | {"line": line},
+                ctx.violation("real search differs from the Lean model (" + ("findAllH on the real pointers" if heap else "findAllFam") + ")",
+                              case=desc | {"line": line},
                               expected=f"{show_res(mres)} | {show_log(mlog or [])}",
                               observed=f"{show_res(real)} | {show_log(rlog)}", model=rep, stream="correspondence", kf=kf)
     ctx.count("model:requests", len(lines))
@@ -1140,7 +1194,7 @@ def replay(path):
         print(f"re-run on the implementation: tag.{c['attr']} ->", show_res(real))
         print(f"property demands (tag.find({c['attr']!r}) / AttributeError for dunder names):", show_res(want))
         return 0 if real == want else 1
-    if c.get("op") != "find" or "q" not in c:
+    if c.get("op") not in ("find", "findh") or "q" not in c or (c.get("start") == 0 and c.get("family") in ("next", "prev")):
         print("(no automatic re-run for this kind of case; see the fields above)")
         return 1
 
